@@ -211,9 +211,9 @@ class QuotientFilter:
             int: The next hash stored in the quotient filter"""
         queue: List[int] = []
 
-        # find first empty location
+        # find first empty location; a full filter has none, so the start of a cluster works as well
         start = 0
-        while not self._is_empty_element(start):
+        while not (self._is_empty_element(start) or self._is_cluster_start(start)):
             start += 1
 
         cur_quot = 0
@@ -433,7 +433,10 @@ class QuotientFilter:
             idx = next_idx
             next_idx = (idx + 1) & self.__mod_size
 
-        while not self._is_cluster_start(next_idx) and not self._is_empty_element(next_idx):
+        # next_idx == min_idx: the cluster fills the whole filter and wraps around onto its own start
+        while (
+            next_idx != min_idx and not self._is_cluster_start(next_idx) and not self._is_empty_element(next_idx)
+        ):
             self._filter[idx] = self._filter[next_idx]
             self._is_continuation[idx] = self._is_continuation[next_idx]
             self._is_shifted[idx] = self._is_shifted[next_idx]
@@ -452,7 +455,7 @@ class QuotientFilter:
         # now figure out if things are in the correct place....
         cur_quot = -1
         queue: List[int] = []
-        while min_idx != next_idx:
+        while True:
             if self._is_occupied[min_idx] == 1:
                 queue.append(min_idx)
             if self._is_run_start(min_idx) == 1:
@@ -463,6 +466,8 @@ class QuotientFilter:
                 self._is_shifted[min_idx] = 0
                 self._is_occupied[min_idx] = 1
             min_idx = (min_idx + 1) & self.__mod_size
+            if min_idx == next_idx:  # a do-while: a cluster that filled the whole filter ends where it began
+                break
 
     def _contained_at_loc(self, q: int, r: int) -> int:
         """returns the index location of the element, or -1 if not present"""
